@@ -126,3 +126,36 @@ Example C12_exact_log_big_ids :
   allowed P0 Bctx (OBatch [REQ 0 100 [1;2;7300003] 0 [1;2;7300003] [11;12;13] 7300003 13 false true 7]) = false ∧
   allowed P0 Bctx (OBatch [REQ 2 100 [77] 5 [] [15] 0 11 false false 0]) = true.
 Proof. exact B_big_ids. Qed.
+
+(** 6. "has reported persisted log data for exactly that replica" against the report HISTORY (DB side; model
+       theories/DB.v [host_update], proofs/DBPlogProofs.v).  [last_plog P (Live db_init) cs a]: the list carried by
+       the last effective report of address a in cs that INCLUDED its persisted-log list (PlogInfoIncluded); [] if
+       there is none.  In every reachable DB state the NodeHost record carries exactly that list: an included list
+       that is shorter, or empty, replaces the older one - whether or not the NodeHost missed reports before -
+       and a report that does not include the list leaves it alone. *)
+From Drummer.Proofs Require Import DBProofs DBPlogProofs.
+Theorem C12_plog_latest_included : ∀ P cs d a h,
+  run P cs = Live d → d_hosts d !! a = Some h → h_plog h = last_plog P (Live db_init) cs a.
+Proof. exact run_host_plog. Qed.
+Print Assumptions C12_plog_latest_included.
+
+(** ... and so a restore request of ANY batch the scheduler may return for the context of a reachable DB state
+    names a (shard, replica) that is in the most recent included list of the NodeHost it is sent to. *)
+Theorem C12_restore_log_in_latest_list : ∀ P cs d b q,
+  run P cs = Live d → allowed P (ctx_of_db d) (OBatch b) = true → q ∈ b → is_restore q = true →
+  (q_shard q, q_inst q) ∈ last_plog P (Live db_init) cs (q_raft q).
+Proof. exact restore_log_in_latest_list. Qed.
+Print Assumptions C12_restore_log_in_latest_list.
+
+(* Non-vacuity: NodeHost 1 includes [(1,10)], then reports without a list (kept), then includes the EMPTY list
+   without ever missing a report (dropped), then includes [(1,10);(2,7)] again *)
+Definition plrep (incl : bool) (pl : list (N * N)) : cmd := CReport (mkReport 1 [] [] 0 incl pl 0 0).
+Definition pltr : list cmd := [CTick; plrep true [(1,10)]; CTick; plrep false []].
+Example C12_plog_history :
+  (h_plog <$> (match run P0 pltr with Live d => d_hosts d !! 1 | Dead => None end)) = Some [(1,10)] ∧
+  last_plog P0 (Live db_init) pltr 1 = [(1,10)] ∧
+  (h_plog <$> (match run P0 (pltr ++ [CTick; plrep true []]) with Live d => d_hosts d !! 1 | Dead => None end)) = Some [] ∧
+  last_plog P0 (Live db_init) (pltr ++ [CTick; plrep true []]) 1 = [] ∧
+  (h_plog <$> (match run P0 (pltr ++ [CTick; plrep true []; plrep true [(1,10);(2,7)]]) with Live d => d_hosts d !! 1 | Dead => None end))
+    = Some [(1,10);(2,7)].
+Proof. vm_compute. repeat split; reflexivity. Qed.
